@@ -133,6 +133,40 @@ def gen_cross(rng, ek="D", kind="d"):
     return "mdp %s %d %d %d %s" % (ek, S, A, len(ops), " ".join(ops))
 
 
+def gen_cross_multi(rng, ek, kinds, bounds=(10000, 20000)):
+    """one hot pair driven across each forced-resync boundary (visitSum % 10000 == 0) with several models
+       (dense and sparse side by side).  Per boundary and per model either 'warm' (full sync a few records
+       before the boundary, then record + sync(s,a,s1) after every record across it: the documented
+       incremental use) or 'cold' (no sync at all since the last burst: the first sync(s,a,s1) is issued at
+       exactly the boundary count, where the forced full re-normalisation alone must produce the empirical
+       row, and the incremental form continues from there).  >= 2 distinct successors; a few records on
+       other pairs in between."""
+    S = rng.randint(2, 4); A = rng.randint(1, 2)
+    keys = [(s, a) for s in range(S) for a in range(A)]
+    hs, ha = rng.choice(keys)
+    rews = rng.sample(REW, 3)
+    ops = ["m %s 0" % k for k in kinds]
+    n = 0
+    def rec(k, s1):
+        ops.append("r %d %d %d %s" % (k[0], k[1], s1, rng.choice(rews)))
+    for b in bounds:
+        lead = rng.randint(2, 12); tail = rng.randint(4, 12)
+        warm = [rng.random() < 0.6 for _ in kinds]
+        if not any(warm) and rng.random() < 0.5: warm[rng.randrange(len(kinds))] = True
+        while n < b - lead:
+            if len(keys) > 1 and rng.random() < 0.002:
+                k = rng.choice([k for k in keys if k != (hs, ha)]); rec(k, rng.randrange(S)); continue
+            rec((hs, ha), rng.randrange(S)); n += 1
+        for mi, w in enumerate(warm):
+            if w: ops.append("p %d %d %d" % (mi, hs, ha))
+        for _ in range(lead + tail):
+            s1 = rng.randrange(S); rec((hs, ha), s1); n += 1
+            for mi, w in enumerate(warm):
+                if w or n >= b: ops.append("i %d %d %d %d" % (mi, hs, ha, s1))
+        ops.append("d")
+    return "mdp %s %d %d %d %s" % (ek, S, A, len(ops), " ".join(ops))
+
+
 def gen_svt(rng):
     S = rng.randint(1, 4); A = rng.randint(1, 3)
     t = [str(rng.choice([0, 0, 1, 2, 7, 100])) for _ in range(A * S * S)]
@@ -224,7 +258,14 @@ def gen(rng, tier):
     # histories crossing the forced-resync threshold (visitSum % 10000 == 0)
     if tier == "quick":
         out.append(gen_cross(rng))
+        # dense and sparse models side by side over the Eigen sparse experience and the non-Eigen wrapper,
+        # across visitSum = 10000 and 20000 (both model classes have the forced resync)
+        out.append(gen_cross_multi(rng, "S", ["s", "d"]))
+        out.append(gen_cross_multi(rng, "N", ["d", "s"], bounds=(10000,)))
     elif tier == "thorough":
         out.append(gen_cross(rng, ek="S", kind=rng.choice(["d", "s"])))
+        out.append(gen_cross_multi(rng, "S", ["s", "d", "s"]))
+        out.append(gen_cross_multi(rng, "N", ["s", "d"]))
+        out.append(gen_cross_multi(rng, "D", ["d", "d"], bounds=(10000, 20000, 30000)))
         out.append(gen_mdp(rng, 25000, S=2, A=1, ek=rng.choice(["D", "N"]), strict=True, kinds=("d",), focus=True, dump_every=8000))
     return out
